@@ -23,10 +23,19 @@ var (
 )
 
 func init() {
-	p := os.Getenv("VERIF_REPLAY")
-	if p == "" {
-		return
+	if p := os.Getenv("VERIF_REPLAY"); p != "" {
+		VerifReload(p)
 	}
+}
+
+// VerifReload resets the pool model and loads the garbage bytes of a replay/sample file.
+func VerifReload(p string) {
+	mu.Lock()
+	defer mu.Unlock()
+	free = map[int][][]byte{}
+	released = map[*byte]bool{}
+	nfresh = 0
+	garbage = nil
 	b, err := os.ReadFile(p)
 	if err != nil {
 		return
